@@ -85,3 +85,50 @@ def run(shard, rec):
                 rec.violation(f'find_irreducible({p},{d}) = {R.pfromint(got, p)}, smallest monic irreducible of degree {d} is {R.pfromint(exp, p)}',
                               dict(feats, op='find_irreducible', degree=d, expected_is_x=exp == p, got_is_x_plus_1=got == p + 1), {'case': case}, case=case)
         rec.case(case, nontrivial=d >= 2)
+    # ---- beyond the enumerated degrees: products of irreducible factors of mixed degrees (reducible by construction) and irreducibles of degree 5..8
+    #      found by the brute-force oracle's own search; this is where degree-dependent shortcuts of the irreducibility test would show
+    if p != 2 or True:
+        by_deg = {}
+        for ai in monic_irr:
+            by_deg.setdefault(len(R.pfromint(ai, p)) - 1, []).append(R.pfromint(ai, p))
+        patterns = [(2, 3), (1, 4), (2, 2, 3), (3, 4), (2, 5), (3, 5), (1, 2, 3), (2, 2), (3, 3), (1, 1, 3)]
+        for pat in patterns:
+            if any(d not in by_deg for d in pat) or sum(pat) > 9:
+                continue
+            for rep_ in range(6):
+                facs = [rng.choice(by_deg[d]) for d in pat]
+                prod = [1]
+                for f_ in facs:
+                    prod = R.pmul(prod, f_, p)
+                case = [p, 'product', list(pat), prod]
+                if not rec.wants(case):
+                    continue
+                with rec.guard(f'is_irreducible(product of degrees {pat})', case, dict(feats, op='exception')):
+                    got = P.is_irreducible(P(prod))
+                    rec.count('is_irreducible_checked')
+                    rec.count('mixed_degree_products')
+                    if got:
+                        rec.violation(f'p={p}: is_irreducible({prod}) = True for a product of irreducible factors of degrees {pat}: {facs}', dict(feats, op='is_irreducible', kind='mixed-degree-product'), {'case': case}, case=case)
+                    try:
+                        finfields.GF(P(prod))
+                        rec.violation(f'p={p}: GF({prod}) accepted a reducible modulus (factors of degrees {pat})', dict(feats, op='GF-modulus', kind='mixed-degree-product'), {'case': case}, case=case)
+                    except ValueError:
+                        pass
+                rec.case(case, nontrivial=True)
+        for d in range(D + 1, min(D + 4, 9) if p <= 7 else D + 1):
+            case = [p, 'find-high', d]
+            if not rec.wants(case) or p ** d > 3 * 10 ** 5:
+                continue
+            with rec.guard(f'find_irreducible({p},{d})', case, dict(feats, op='exception')):
+                got = R.pfromint(int(finfields.find_irreducible(p, d)), p)
+                rec.count('find_irreducible_checked')
+                # independent search: first monic polynomial of degree d (integer order) without a factor of degree <= d/2
+                exp = None
+                for ai in range(p ** d, 2 * p ** d):
+                    cand = R.pfromint(ai, p)
+                    if R.is_irreducible_bf(cand, p):
+                        exp = cand
+                        break
+                if got != exp:
+                    rec.violation(f'find_irreducible({p},{d}) = {got}, smallest monic irreducible of degree {d} is {exp}', dict(feats, op='find_irreducible', degree=d, kind='high-degree'), {'case': case}, case=case)
+            rec.case(case, nontrivial=True)
